@@ -680,7 +680,7 @@ def run(ctx):
         for fam, budget in (('args', 0), ('share', 0), ('frames', 0), ('edit', 0), ('share2', 3000)):
             hs += s2c_sessions(ctx, ctx.generate('MC_SyncSess', 'MC_SyncSess_gen_%s.cfg' % fam), budget)
         # TLC-simulated longer sessions (6 steps: calls of every entry point interleaved with the caller's in-place edits)
-        hs += s2c_sessions(ctx, ctx.generate('MC_SyncSess', 'MC_SyncSess_gen_mix.cfg', simulate=3000, depth=7, seed=ctx.seed + 1, workers=1), 0)
+        hs += s2c_sessions(ctx, ctx.generate('MC_SyncSess', 'MC_SyncSess_gen_mix.cfg', simulate=400, depth=7, seed=ctx.seed + 1, workers=1), 2500)
         c2s(ctx, report, 6000, hs)
     ctx.extra['violation_signatures'] = report.summary()
     ctx.assumptions += [
